@@ -243,6 +243,26 @@ def container_documents(ctx):
         yield f"{kind}:trailing-garbage", data + b"trailing"
 
 
+def double_mutation_documents(ctx):
+    """Two independent mutations in one file (a damaged child AND a damaged field of its node, two bad nodes, ...): loaders
+    that repair or skip one kind of damage and go on meet the second one on their recovery path."""
+    rng = ctx.rng
+    for base_name, base in (("native", NATIVE), ("legacy", LEGACY)):
+        all_paths = [p for p in paths(base) if p]
+        child_paths = [p for p in all_paths if "children" in p and len(p) >= 3]
+        for i in range(ctx.pick(500, 20000)):
+            first = rng.choice(child_paths if i % 2 else all_paths)
+            second = rng.choice(all_paths)
+            if first == second or first[:len(second)] == second or second[:len(first)] == first:
+                continue
+            doc = replaced(base, first, rng.choice(VALUES))
+            try:
+                doc = replaced(doc, second, rng.choice(VALUES))
+            except Exception:  # noqa: BLE001 - the first mutation removed the second path
+                continue
+            yield f"{base_name}:double {'/'.join(first)} + {'/'.join(second)}", json.dumps(doc).encode()
+
+
 def duplicate_key_documents():
     """JSON TEXT with a key repeated inside one object - something no json.dumps of a Python dict produces, but a hand
     edit or a merge does - at every level: node ids, node fields, child ids, child fields, value types."""
@@ -273,7 +293,8 @@ async def load_file(ctx, workdir: str, name: str, content: bytes, via_gateway: b
     with open(path, "wb") as fil:
         fil.write(content)
     case = {"name": name, "content_hex": content.hex() if len(content) < 4000 else None, "via_gateway": via_gateway,
-            "content_len": len(content), "file_name": file_name, "explicit_path": explicit_path}
+            "content_len": len(content), "file_name": file_name, "explicit_path": explicit_path,
+            "config_extra": dict(__import__("vf.harness", fromlist=["CONFIG_EXTRA"]).CONFIG_EXTRA)}
     try:
         if via_gateway:
             from ..harness import new_gateway
@@ -359,7 +380,11 @@ async def special_cases(ctx, workdir: str) -> None:
 
 
 def run_case(ctx, case: dict) -> None:
+    from .. import harness
+
     workdir = str(scratch_dir("c14"))
+    harness.CONFIG_EXTRA.clear()
+    harness.CONFIG_EXTRA.update(case.get("config_extra") or {})
     try:
         if case.get("content_hex") is not None:
             arun(load_file(ctx, workdir, case["name"], bytes.fromhex(case["content_hex"]), case.get("via_gateway", False),
@@ -367,6 +392,7 @@ def run_case(ctx, case: dict) -> None:
         else:
             arun(special_cases(ctx, workdir))
     finally:
+        harness.CONFIG_EXTRA.clear()
         shutil.rmtree(workdir, ignore_errors=True)
 
 
@@ -380,6 +406,30 @@ def run(ctx) -> None:
                     file_name = FILE_NAMES[index // 3 % len(FILE_NAMES)] if index % 3 == 0 else "p.json"
                     arun(load_file(ctx, workdir, name, content, via_gateway=(index % 25 == 0), file_name=file_name,
                                    explicit_path=(index % 25 == 1)))
+            for index, (name, content) in enumerate(double_mutation_documents(ctx)):
+                if ctx.mine(index):
+                    arun(load_file(ctx, workdir, name, content, via_gateway=(index % 4 == 0)))
+                    ctx.clause("double-mutation")
+            # every Config option this harness does not know, set to a non-default value: whatever it makes the loader do
+            # with damaged files (skip, repair, convert), only the persistence read error may come out - the whole corpus of
+            # single and double mutations again, through a Gateway built with the option
+            from .. import harness
+
+            options = harness.unknown_options()
+            ctx.obs("unknown-config-options", len(options))
+            for extra in options:
+                harness.CONFIG_EXTRA.clear()
+                harness.CONFIG_EXTRA.update(extra)
+                try:
+                    for index, (name, content) in enumerate(itertools.chain(documents(ctx), double_mutation_documents(ctx),
+                                                                            duplicate_key_documents())):
+                        if name.split(":")[-1].startswith("prefix") and index % 5:
+                            continue
+                        if ctx.mine(index):
+                            arun(load_file(ctx, workdir, f"{name} [options {extra}]", content, via_gateway=True))
+                            ctx.clause("corpus-under-unknown-option")
+                finally:
+                    harness.CONFIG_EXTRA.clear()
             for index, (name, content) in enumerate(duplicate_key_documents()):
                 if ctx.mine(index):
                     arun(load_file(ctx, workdir, name, content, via_gateway=(index % 5 == 0)))
